@@ -61,7 +61,22 @@ func init() {
 	simple("MethodStepX", step.STEP_METHOD_X, true, func() Codec { return step.NewMethodStepX() })
 	simple("SqlStepX", step.STEP_SQL_X, true, func() Codec { return step.NewSqlStepX() })
 	simple("ResultSetStep", step.STEP_RESULTSET, true, func() Codec { return step.NewResultSetStep() })
-	simple("SocketStep", step.STEP_SOCKET, true, func() Codec { return step.NewSocketStep() })
+	add(&Spec{Name: "SocketStep", Code: step.STEP_SOCKET, Registered: true, New: func() Codec { return step.NewSocketStep() },
+		Build: func(s *rfl.Stream) Codec {
+			p := step.NewSocketStep()
+			fill(p, s)
+			// the address as the standard library hands addresses out: 4 bytes, 16 bytes (IPv6, or an IPv4 address in its
+			// 16-byte IPv4-mapped form), besides the arbitrary byte strings of the generic fill
+			switch s.Intn(5) {
+			case 0:
+				p.IpAddr = []byte{10, byte(s.Intn(256)), 0, 1}
+			case 1:
+				p.IpAddr = []byte{0, 0, 0, 0, 0, 0, 0, 0, 0, 0, 0xff, 0xff, 192, 168, byte(s.Intn(256)), 7}
+			case 2:
+				p.IpAddr = []byte{0x20, 0x01, 0x0d, 0xb8, 0, 0, 0, 0, 0, 0, 0, 0, 0, 0, byte(s.Intn(256)), 1}
+			}
+			return p
+		}})
 	simple("ActiveStackStep", step.STEP_ACTIVE_STACK, true, func() Codec { return step.NewActiveStackStep() })
 	simple("MessageStep", step.STEP_MESSAGE, true, func() Codec { return step.NewMessageStep() })
 	simple("SecureMsgStep", step.STEP_SECURE_MESSAGE, true, func() Codec { return step.NewSecureMsgStep() })
